@@ -560,6 +560,62 @@ impl Space for CalendarWith {
     }
 }
 
+/// Receivers inside every leap month code (M01L..M12L of the chinese and dangi calendars, M05L of the hebrew one):
+/// the merge keeps month and month code of the receiver, so every one of them has to be resolvable again.
+struct LeapMonthReceivers;
+const LEAP_WITNESS_DAYS: [(i32, u8, u8); 18] = [(1051, 3, 5), (1002, 3, 24), (1010, 4, 25), (1018, 5, 27), (1007, 6, 24), (1015, 7, 26), (1004, 9, 5), (1251, 10, 4), (1107, 10, 30), (1289, 11, 23), (1012, 12, 30), (1404, 2, 1), (1029, 4, 29), (1010, 5, 23), (1012, 11, 4), (1032, 1, 4), (1890, 2, 1), (2024, 2, 15)];
+impl Space for LeapMonthReceivers {
+    fn name(&self) -> String {
+        "c17.leap_month_receivers".into()
+    }
+    fn len(&self) -> u64 {
+        (LEAP_WITNESS_DAYS.len() * 3) as u64
+    }
+    fn block(&self) -> u64 {
+        1
+    }
+    fn eval(&self, i: u64, out: &mut Out) {
+        let (y, m, d) = LEAP_WITNESS_DAYS[i as usize / 3];
+        let cal_id = ["chinese", "dangi", "hebrew"][i as usize % 3];
+        let cal = Calendar::from_str(cal_id).expect("calendar");
+        // five days into the month that starts on the witness day
+        let Oc::Ok(recv) = call(|| PlainDate::try_new(y, m, d, Calendar::default()).and_then(|p| p.add(&temporal_rs::Duration::new(0.into(), 0.into(), 0.into(), 5.into(), 0.into(), 0.into(), 0.into(), 0.into(), 0.into(), 0.into()).unwrap(), None)).and_then(|p| p.with_calendar(cal.clone()))) else { return };
+        let Oc::Ok((ry, rm, rcode, rd)) = call_inf(|| (recv.year(), recv.month(), recv.month_code(), recv.day())) else { return };
+        if !rcode.as_str().ends_with('L') {
+            out.unjudged += 1; // this day is not in a leap month of this calendar
+            return;
+        }
+        out.nontrivial += 1;
+        out.count("receivers_in_a_leap_month", 1);
+        for (ovn, ov) in [("constrain", Some(ArithmeticOverflow::Constrain)), ("reject", Some(ArithmeticOverflow::Reject)), ("absent", None)] {
+            let base = |what: &str| vec![("calendar", cal_id.to_string()), ("receiver", format!("{ry}/{}/{rd}", rcode.as_str())), ("overflow", ovn.to_string()), ("with", what.to_string())];
+            let fields = |p: &PlainDate| (p.year(), p.month(), p.month_code().as_str().to_string(), p.day());
+            for wd in [1u8, 12, 29] {
+                let got = call(|| recv.with(PartialDate::new().with_day(Some(wd)), ov).map(|r| fields(&r)));
+                out.lockstep("with({day}) in a leap month", &Ok((ry, rm, rcode.as_str().to_string(), wd)), &got, |a, b| a == b, || base(&format!("day={wd}")));
+            }
+            let got = call(|| recv.with(PartialDate::new().with_month_code(Some(rcode)), ov));
+            out.lockstep("with({monthCode: own}) is the identity", &Ok(()), &got, |_, b| *b == recv, || base("own month code"));
+            let got = call(|| recv.with(PartialDate::new().with_month(Some(rm)), ov));
+            out.lockstep("with({month: own}) is the identity", &Ok(()), &got, |_, b| *b == recv, || base("own month"));
+            let got = call(|| recv.with(PartialDate::new().with_year(Some(ry)), ov));
+            out.lockstep("with({year: own}) is the identity", &Ok(()), &got, |_, b| *b == recv, || base("own year"));
+            let got = call(|| PlainDate::from_partial(PartialDate::new().with_year(Some(ry)).with_month_code(Some(rcode)).with_day(Some(rd)).with_calendar(cal.clone()), ov));
+            out.lockstep("from_partial(year, monthCode, day) gives the receiver", &Ok(()), &got, |_, b| *b == recv, || base("from_partial by code"));
+            let got = call(|| PlainDate::from_partial(PartialDate::new().with_year(Some(ry)).with_month(Some(rm)).with_day(Some(rd)).with_calendar(cal.clone()), ov));
+            out.lockstep("from_partial(year, month, day) gives the receiver", &Ok(()), &got, |_, b| *b == recv, || base("from_partial by ordinal"));
+            let got = call(|| {
+                let dt = temporal_rs::PlainDateTime::from_date_and_time(recv.clone(), temporal_rs::PlainTime::try_new(1, 2, 3, 0, 0, 0)?)?;
+                dt.with(temporal_rs::partial::PartialDateTime::new().with_partial_date(PartialDate::new().with_day(Some(12))), ov).map(|r| (r.year(), r.month(), r.month_code().as_str().to_string(), r.day(), r.hour()))
+            });
+            out.lockstep("PlainDateTime::with({day}) in a leap month", &Ok((ry, rm, rcode.as_str().to_string(), 12u8, 1u8)), &got, |a, b| a == b, || base("date-time day=12"));
+        }
+    }
+    fn describe(&self) -> serde_json::Value {
+        json!({"witness_days": LEAP_WITNESS_DAYS.len(), "calendars": ["chinese", "dangi", "hebrew"]})
+    }
+}
+
 pub fn spaces(env: &Env) -> Vec<Box<dyn Space>> {
     let _ = env;
     vec![
@@ -570,6 +626,7 @@ pub fn spaces(env: &Env) -> Vec<Box<dyn Space>> {
         Box::new(DateTimePartial { recv: receivers() }),
         Box::new(Zoned),
         Box::new(CalendarWith),
+        Box::new(LeapMonthReceivers),
         Box::new(WithTime { recv: receivers() }),
         Box::new(Builders),
     ]
